@@ -77,9 +77,10 @@ def _strategy(tier):
         # when their values are whole numbers
         int_scalars=st.booleans(),
         # a long gain vector (n up to 2048), drawn from a seeded generator
-        long=st.one_of(*([st.none()] * 29 + [
-                       st.tuples(st.sampled_from([33, 64, 300, 1100, 2048]),
-                                 seeds).map(list)])),
+        long=st.tuples(st.integers(0, 29),
+                       st.sampled_from([33, 64, 300, 1100, 2048]),
+                       seeds).map(lambda t: [t[1], t[2]] if t[0] == 17
+                                  else None),
         pt_switch=st.one_of(st.none(), st.none(), st.none(), st.tuples(
             fl(0.0, 1.0), st.integers(-12, -3),
             st.sampled_from([-1, -1, 1, 0])).map(list)),
@@ -98,6 +99,16 @@ def _ref_level(a, Pt):
     """Independent water level: smallest set of best channels that is
     affordable; a = noise/(Es*gain) floors."""
     s = sorted(a)
+    if len(s) > 32:
+        # long vectors: running sums (their rounding, n*eps relative, is far
+        # inside the 1e-9 tolerance)
+        pre = [0.0]
+        for x in s:
+            pre.append(pre[-1] + x)
+        for k in range(len(s), 0, -1):
+            m = (Pt + pre[k]) / k
+            if m > s[k - 1] or k == 1:
+                return (Pt + math.fsum(s[:k])) / k
     for k in range(len(s), 0, -1):
         m = (Pt + math.fsum(s[:k])) / k
         if m > s[k - 1] or k == 1:
@@ -218,9 +229,9 @@ def check(case, ctx):
     eps = case["eps"]
     idx = list(range(n))
     if n > 32:
-        # long vectors: transfers between 12 sampled channels only
+        # long vectors: transfers between 6 sampled channels only
         idx = sorted(np.random.RandomState(case["perm_seed"]).permutation(
-            n)[:12].tolist())
+            n)[:6].tolist())
     for i in idx:
         if p[i] <= 0:
             continue
